@@ -328,6 +328,19 @@ pub mod fpoint {
             self.x
         }
     }
+    /// a second instantiation for generic declarations: its `Default` satisfies `g_p_xpos`, Point's does not
+    #[derive(Clone, Copy, Debug, PartialEq, Eq, PartialOrd, Ord, Hash)]
+    pub struct PosPoint(pub Point);
+    impl Default for PosPoint {
+        fn default() -> Self {
+            PosPoint(Point { x: 1, y: 1 })
+        }
+    }
+    impl HasX for PosPoint {
+        fn x_(&self) -> i16 {
+            self.0.x
+        }
+    }
     pub fn g_p_xpos<T: HasX>(p: &T) -> bool {
         p.x_() > 0
     }
